@@ -360,7 +360,7 @@ class C12(Harness):
             f = W.load("sktime.forecasting.compose._ensemble").EnsembleForecaster([("a", NF()), ("b", Member(p=1))])
         else:
             T, _ = make_transformer(W, log)
-            f = W.load("sktime.forecasting.compose._pipeline").TransformedTargetForecaster([("t", T(tag=1)), ("f", NF())])
+            f = W.load("sktime.forecasting.compose._pipeline").TransformedTargetForecaster([("t", T(tag=1)), ("u", T(tag=2)), ("f", NF())])  # (two transformers that do not commute)
         yin = pack(y)
         yin_type = type(y.index).__name__
         fh = np.array([1, 2])
